@@ -271,5 +271,12 @@ def selfTest : Bool :=
       publicKey (unhex sk) == unhex pk && sign (unhex sk) (unhex m) == unhex sg
       && verify (unhex pk) (unhex m) (unhex sg) && verifyRfc (unhex pk) (unhex m) (unhex sg)
       && !verify (unhex pk) (unhex m ++ [0]) (unhex sg)
+  -- where cryptoxide's verify and the strict reference part ways (Props/C11.lean, known findings)
+  && (let idSig : Bytes := (1 :: zeros 31) ++ zeros 32
+      let pkNonCanon : Bytes := 0xee :: (List.replicate 30 0xff ++ [0x7f])
+      let pkXZero : Bytes := 1 :: (zeros 30 ++ [0x80])
+      verify pkNonCanon [1, 2, 3] idSig && !verifyRfc pkNonCanon [1, 2, 3] idSig
+      && verify pkXZero [1, 2, 3] idSig && !verifyRfc pkXZero [1, 2, 3] idSig
+      && !verify (zeros 32) [4] idSig && verifyRfc (zeros 32) [4] idSig)
 
 end PallasVerif.Ed25519
